@@ -319,6 +319,15 @@ def _judge_mode(C, mode, sit, opened, exc, r, vnow, vcommitted, before, files_be
     r.discard_patch()
     if view(r) != vcommitted:
         return False
+    # nothing is pending now: another discard is refused and does not touch the committed containers
+    try:
+        r.discard_patch()
+        note(("discard_patch accepted although nothing is pending",))
+        return False
+    except ValueError:
+        pass
+    if view(r) != vcommitted:
+        return False
     r.close()
     s2 = snap()
     if uncommitted:  # the uncommitted patch file is gone, everything else as before
